@@ -236,6 +236,23 @@ def check_file_set(ctx, db, params, pfile, kind, what, case, tag):
     if rl != sorted(rl) or cl != sorted(cl, reverse=True):
         rec.violation('simulator-rows-not-in-the-documented-order', {'rise_levels': rl[:5], 'recession_levels': cl[:5]}, wcase, 'pest')
         return False
+    # ... and they are the levels of the measured master curves in the dataset (the k-th control-file
+    # observation and the k-th simulated value belong to the same water level)
+    con = _LIBRARY['connection'] if _LIBRARY['connection'] is not None else sqlite3.connect(db)
+    try:
+        want_rise = [r[0] for r in con.execute('SELECT zeta_mm FROM average_rising_depth ORDER BY zeta_mm')]
+        want_rec = [r[0] for r in con.execute('SELECT zeta_mm FROM average_recession_time ORDER BY zeta_mm DESC')] if cl else []
+    finally:
+        if _LIBRARY['connection'] is None:
+            con.close()
+    # (the recession simulator converts to cm and back: equal to an ulp or two, not bit for bit)
+    differs = lambda a, b: abs(a - b) > 1e-9 * max(1.0, abs(b))
+    if len(rl) != len(want_rise) or len(cl) != len(want_rec) or any(differs(a, b) for a, b in zip(rl + cl, want_rise + want_rec)):
+        bad = next(((a, b) for a, b in zip(rl + cl, want_rise + want_rec) if differs(a, b)), None)
+        rec.violation('simulator-rows-are-not-at-the-levels-of-the-measured-master-curve',
+                      {'first_difference_listed_vs_measured': bad, 'rows': [len(rl), len(cl)], 'levels': [len(want_rise), len(want_rec)]}, wcase, 'pest')
+        return False
+    rec.hit('simulator-levels-compared-with-the-master-curve', len(rl) + len(cl))
     # ---- instruction file applied to the simulator's --observations output
     try:
         vals, where = pest.ins_apply(texts['ins'], sim_obs)
